@@ -263,6 +263,8 @@ from . import helpers, wiring, c02
 
 from . import initial
 
+from . import removals
+
 OBLIGATIONS = [
     ('C05.O1', 'every accepted input packet is acknowledged', 'From the end of the shape checks every path to a normal return '
      'that is not a decoder rejection passes through send_input_ack -- including the path on which the decode reference is '
@@ -282,4 +284,5 @@ OBLIGATIONS = [
     ('C05.W', 'configuration wiring', 'at every call site that passes a field read `x.B` for a parameter `A` the callee has no same-typed parameter `B`; in every struct literal no parameter `B` is stored in field `A` while a same-typed parameter `A` / field `B` exists (builder -> constructor -> endpoint fields: timeouts, window, fps are not crossed); see rules/wiring.py', wiring.rule),
     ('C05.O7', 'a spectator catching up after an outage consumes one frame per fetched frame (= C02.O8)', 'host->spectator links are part of this property: after a burst the spectator catches up several frames per call; each AdvanceFrame it emits carries the inputs of the next frame and the frame counter moves by exactly one per fetched frame, after the fetch succeeded. See C02.O8 / C01.O3.', c02.o8),
     ('C05.I', 'initial state', 'every constructor gives the fields this property\'s rules interpret (NULL_FRAME = none / nothing yet, 0 = first frame, latches open, typestate start) the value listed in tables/initial_state.json; every field compared with NULL_FRAME anywhere is listed; see rules/initial.py', initial.rule_for('C05')),
+    ('C05.R', 'who may remove', 'every call that takes elements out of a collection this property\'s rules rely on (keyed removal from a map, or bulk / positional removal) is one of the reviewed sites in tables/removals.json; a lookup turned into a removal, a second prune, a clear on another path is reported; see rules/removals.py', removals.rule_for('C05')),
 ]
